@@ -390,3 +390,61 @@ def generic_replay(pid, path):
         return 0
     log("replay file has no replayable payload; it documents: " + obj.get("what", "?"))
     return 2
+
+
+# --------------------------------------------------------------------------- trace check helper
+def validate_trace(out, module, cfg, trace_path, label, *, timeout=3000, env=None, replay_extra=None, signature_fn=None, key="run", max_report=3):
+    """Validate an NDJSON trace; on rejection record a VIOLATION whose replay payload is the
+    run containing the first unmatched event, then continue with the remaining runs so that
+    one rejection does not leave the rest of the trace unexamined.
+    Returns (events, n_rejections)."""
+    events = read_ndjson(trace_path)
+    offset = 0
+    cur = events
+    rejections = 0
+    total_matched = 0
+    header = []          # events that must precede every (re)validation, e.g. the current 'world'
+    while True:
+        path = trace_path if offset == 0 else trace_path + f".part{rejections}"
+        if offset != 0:
+            write_ndjson(path, header + cur)
+        matched, total, tr = tlc_trace(module, cfg, path, timeout=timeout, env=env)
+        hl = len(header) if offset != 0 else 0
+        matched_cur = matched - hl
+        if matched >= total and not tr.violated:
+            total_matched += matched_cur
+            break
+        rejections += 1
+        idx = min(max(matched_cur, 0), len(cur) - 1)
+        lo, hi = run_slice(cur, idx, key)
+        bad = cur[idx]
+        # the world/dictionary event the run depends on
+        w = None
+        for j in range(idx, -1, -1):
+            if cur[j].get("ev") == "world":
+                w = cur[j]
+                break
+        if w is None:
+            for hdr in header:
+                if hdr.get("ev") == "world":
+                    w = hdr
+        sl = ([w] if w is not None and not (lo <= cur.index(w) < hi if w in cur else False) else []) + cur[lo:hi]
+        what = (f"I->S {label}: invariant {tr.violated} is false in a state of a recorded execution (after event #{offset + matched_cur})"
+                if tr.violated else
+                f"I->S {label}: recorded event #{offset + idx + 1} ({bad.get('ev')}) is not a step of the specification: {json.dumps(bad)[:260]}")
+        sig = signature_fn(cur[lo:hi], bad) if signature_fn else None
+        payload = {"kind": "trace", "module": module, "cfg": cfg, "events": sl}
+        if replay_extra:
+            payload.update(replay_extra)
+        out.violation(what, payload, signature=sig)
+        total_matched += max(lo, 0)
+        if rejections >= max_report:
+            break
+        # continue after the rejected run
+        header = [w] if w is not None else []
+        offset += hi
+        cur = cur[hi:]
+        if not cur:
+            break
+    out.cov["trace_events"] = out.cov.get("trace_events", 0) + len(events)
+    return events, rejections
